@@ -247,10 +247,9 @@ func (s *Storer) GetReader(offset int64, verifyCrc bool) (*Reader, error) {
 	s.mux.RLock()
 	defer s.mux.RUnlock()
 
-	s.dataSetMux.Lock()
-	defer s.dataSetMux.Unlock()
-
-	ds := s.dataSet
+	// s.mux is held: the data set cannot be replaced meanwhile. Holding dataSetMux here as well
+	// would self-deadlock when the reader verifies checksums (hasWriter -> getDataSet).
+	ds := s.getDataSet()
 	if !ds.InRange(offset) {
 		return nil, os.ErrNotExist
 	}
